@@ -901,7 +901,7 @@ func init() {
 			for _, p := range s.p {
 				switch {
 				case p.k == pkBytes && form.IsNormalString(p.s):
-				case p.k == pkRune && p.n == 1, p.k == pkItoa, p.k == pkUtoa, p.k == pkFtoa:
+				case p.k == pkRune && p.n == 1, p.k == pkItoa, p.k == pkUtoa, p.k == pkFtoa, p.k == pkOpaque:
 				default:
 					panic(pathEnd{kind: Inconclusive, msg: "unicode normalisation of a string with symbolic non-ASCII runes"})
 				}
@@ -947,6 +947,34 @@ func init() {
 				r = strConcat(r, sep)
 			}
 			r = strConcat(r, e)
+		}
+		return r
+	}
+}
+
+func init() {
+	I := intrinsics
+	hostRepeat := I["strings.Repeat"]
+	I["strings.Repeat"] = func(fr *frame, args []value) value {
+		c, ok := args[1].(sym)
+		if !ok {
+			if n := asInt64(args[1]); n < 0 {
+				panic(targetPanic{iface{t: types.Typ[types.String], v: "strings: negative Repeat count"}})
+			} else if n > 1<<16 {
+				panic(pathEnd{kind: Inconclusive, msg: "strings.Repeat with a huge count"})
+			}
+			return hostRepeat(fr, args)
+		}
+		if fr.branch(Cmp(OpSlt, c.t, Const(c.t.sort, 0))) {
+			panic(targetPanic{iface{t: types.Typ[types.String], v: "strings: negative Repeat count"}})
+		}
+		n := fr.concreteBound(args[1], 0, fr.i.opts.MaxSymLen, "repeat count")
+		if n > fr.i.opts.MaxSymLen {
+			panic(pathEnd{kind: Inconclusive, msg: "strings.Repeat with a symbolic count beyond the concretisation bound"})
+		}
+		var r value = ""
+		for k := 0; k < n; k++ {
+			r = strConcat(r, args[0])
 		}
 		return r
 	}
